@@ -376,6 +376,9 @@ def extra_trees():
         ("test", a, "in", [xs], False), ("test", a, "none", [], False), B("and", ("test", a, "odd", [], False), p), ("not", ("test", a, "odd", [], False)),
         ("test", B("+", a, b), "even", [], False), ("test", a, "number", [], False), ("test", a, "string", [], False),
         ("slice", xs, C(1), None, None), ("slice", xs, None, None, C(-1)),
+        # a slice of something that cannot be sliced is an error (as in Python), not an undefined value
+        ("slice", a, C(1), None, None), ("slice", p, None, C(2), None), ("slice", B("+", a, b), None, None, C(-1)), ("slice", ("cond", xs, p, a), C(0), C(1), None),
+        ("slice", xs, a, b, None), ("slice", xs, None, None, ("cond", C(1), p, C(-1))),
         ("item", xs, a), ("item", xs, C(0)), ("item", xs, ("neg", C(1))), B("+", ("item", xs, C(0)), a),
         B("+", V("zz"), a), B("==", V("zz"), a), ("not", V("zz")), B("or", V("zz"), a), B("and", V("zz"), a), ("cond", a, V("zz"), b),
         B("//", a, C(0)), B("%", a, B("-", b, b)), B("+", a, C("s")), B("<", a, C("s")),
@@ -530,6 +533,77 @@ def lookup_ok(ha: bool, hi: bool, envk: int) -> bool:
     return got == (dot, sub, UNDEF, UNDEF, dot != UNDEF, sub if sub != UNDEF else "D")
 
 
+# ---------------------------------------------------------------- calls: positional, keyword, reserved-word keyword, * and ** arguments
+KW_SRC = [
+    "kw(a=1, b=2)", "kw(a=1, class=2)", "kw(class=1, a=2, for=3)", "kw(if=1, not=2)", "kw(1, 2, a=3, in=4)", "kw(a=1, **{'b': 2})", "kw(class=1, **{'b': 2})", "kw(a=1, class=2, **{'c': 3})",
+    "kw(*[1, 2], a=3, import=4)", "kw(a=x, None=y, c=x + y)", "kw(obj=1, self=2, context=3)", "kw(x, *[y], lambda=1, z=2, **{'w': 3})",
+    "x|kwf(a=1, class=2)", "x|kwf(2, in=3, b=4)", "x|kwf(else=1)|kwf(k=2, is=3)", "x is kwt(lo=1, not=2, hi=3)", "x is kwt(1, and=2)", "dict(id=x, class='btn', for=y)|dictsort",
+    "[x]|map('kwf', a=1, class=2)|list", "[x]|select('kwt', lo=1, or=2)|list",
+]
+KW_T = {}
+
+
+def _kw(*a, **k):
+    return ("C", a, tuple(k.items()))
+
+
+def _kwf(v, *a, **k):
+    return ("F", v, a, tuple(k.items()))
+
+
+def callkw_ok(i: int, envk: int, x: int, y: int) -> bool:
+    """
+    pre: 0 <= i < len(KW_SRC) and 0 <= envk <= 3
+    post: _
+    """
+    k = pick(i, len(KW_SRC))
+    ek = ["default", "unopt", "sandbox", "async"][pick(envk, 4)]
+    src = KW_SRC[k]
+    with NoTracing():
+        env = _envs()[ek]
+        if "kwf" not in env.filters:
+            for e in _envs().values():
+                e.filters["kwf"] = _kwf
+                e.tests["kwt"] = lambda v, *a, **kk: ("lo" in kk or bool(a))
+                e.globals["kw"] = _kw
+        key = (ek, k)
+        if key not in KW_T:
+            KW_T[key] = env.from_string("{{ rec('r', " + src + ") }}")
+    rec = Rec()
+    if ek == "async":
+        drive(KW_T[key].render_async(rec=rec, x=x, y=y))
+    else:
+        KW_T[key].render(rec=rec, x=x, y=y)
+    got = rec.log[0][1]
+    # reference: the argument tuples a Python call of the same shape delivers, written out per call shape below
+    exp = KW_EXPECT[k](x, y)
+    return _deep(got) == _deep(exp)
+
+
+KW_EXPECT = [
+    lambda x, y: ("C", (), (("a", 1), ("b", 2))),
+    lambda x, y: ("C", (), (("a", 1), ("class", 2))),
+    lambda x, y: ("C", (), (("class", 1), ("a", 2), ("for", 3))),
+    lambda x, y: ("C", (), (("if", 1), ("not", 2))),
+    lambda x, y: ("C", (1, 2), (("a", 3), ("in", 4))),
+    lambda x, y: ("C", (), (("a", 1), ("b", 2))),
+    lambda x, y: ("C", (), (("class", 1), ("b", 2))),
+    lambda x, y: ("C", (), (("a", 1), ("class", 2), ("c", 3))),
+    lambda x, y: ("C", (1, 2), (("a", 3), ("import", 4))),
+    lambda x, y: ("C", (), (("a", x), ("None", y), ("c", x + y))),
+    lambda x, y: ("C", (), (("obj", 1), ("self", 2), ("context", 3))),
+    lambda x, y: ("C", (x, y), (("lambda", 1), ("z", 2), ("w", 3))),
+    lambda x, y: ("F", x, (), (("a", 1), ("class", 2))),
+    lambda x, y: ("F", x, (2,), (("in", 3), ("b", 4))),
+    lambda x, y: ("F", ("F", x, (), (("else", 1),)), (), (("k", 2), ("is", 3))),
+    lambda x, y: True,
+    lambda x, y: True,
+    lambda x, y: [("class", "btn"), ("for", y), ("id", x)],
+    lambda x, y: [("F", x, (), (("a", 1), ("class", 2)))],
+    lambda x, y: [x],
+]
+
+
 def _subst(t, env):
     if isinstance(t, tuple):
         if t and t[0] == "var" and t[1] in env:
@@ -637,6 +711,9 @@ def conditions(tier, seed):
     out.append(Cond("~ with safe and plain operands under autoescape", "concat_markup_ok", mode="B", param={}, timeout=to * 2,
                     witnesses=[[0, 1, 2, False], [1, 0, 3, True], [0, 0, 0, False]],
                     bounds="3 operands each from {plain '<a>', Markup('<b>'), 5, ''}, sync and async"))
+    out.append(Cond("keyword arguments incl. reserved words in calls, filters and tests", "callkw_ok", mode="A", param={}, timeout=to * 2,
+                    witnesses=[[1, 0, 5, 7], [9, 2, -1, 3], [13, 3, 0, 0], [17, 1, 2, 2], [11, 0, 4, 9]],
+                    bounds=f"{len(KW_SRC)} call shapes mixing ordinary keywords, Python reserved words, names of internal parameters (obj, self, context), * and ** arguments; x, y any ints; 4 environments; the order of keyword arguments is compared too"))
     out.append(Cond("attribute-then-item / item-then-attribute / undefined", "lookup_ok", mode="A", param={}, timeout=to,
                     witnesses=[[True, True, 0], [False, True, 2], [False, False, 3], [True, False, 1]],
                     bounds="probe object with symbolic presence of attribute and item 'k'; 4 environments"))
